@@ -13,6 +13,7 @@ import (
 	"path/filepath"
 	"runtime/debug"
 	"sort"
+	"strconv"
 	"strings"
 	"sync"
 	"time"
@@ -361,7 +362,7 @@ func (s *sim) prepare(e *env, op Op, idx int) callFn {
 		id := pick(e.docIDs(op.Col), op.Doc)
 		f := op.Patch.fields(op.Col, authors())
 		if op.Route == "gql" {
-			return gqlCall(fmt.Sprintf(`mutation { update_%s(docID: %q, input: %s) { _docID } }`, cn, id, gqlObj(f)))
+			return gqlCall(fmt.Sprintf(`mutation { update_%s(docID: %s, input: %s) { _docID } }`, cn, idArg(id, e.docIDs(op.Col), op.More), gqlObj(f)))
 		}
 		col, msg := getCol()
 		if msg != "" {
@@ -403,7 +404,7 @@ func (s *sim) prepare(e *env, op Op, idx int) callFn {
 	case "deleteID":
 		id := pick(e.docIDs(op.Col), op.Doc)
 		if op.Route == "gql" {
-			return gqlCall(fmt.Sprintf(`mutation { delete_%s(docID: %q) { _docID } }`, cn, id))
+			return gqlCall(fmt.Sprintf(`mutation { delete_%s(docID: %s) { _docID } }`, cn, idArg(id, e.docIDs(op.Col), op.More)))
 		}
 		col, msg := getCol()
 		if msg != "" {
@@ -959,3 +960,18 @@ func mustJSON(v any) string {
 }
 
 func cidDecode(s string) (cid.Cid, error) { return cid.Decode(s) }
+
+// idArg renders the docID argument: one id, or the list of distinct ids picked by first and more.
+func idArg(first string, all []string, more []int) string {
+	if len(more) == 0 {
+		return strconv.Quote(first)
+	}
+	ids, seen := []string{strconv.Quote(first)}, map[string]bool{first: true}
+	for _, m := range more {
+		if id := pick(all, m); !seen[id] {
+			seen[id] = true
+			ids = append(ids, strconv.Quote(id))
+		}
+	}
+	return "[" + strings.Join(ids, ", ") + "]"
+}
